@@ -25,9 +25,9 @@ def main():
     try:
         rc, o = sh("git apply %s" % patch, cwd=copy)
         meta["applies"] = rc == 0
-        rc2, o2 = sh("cargo test --offline --no-fail-fast 2>&1 | grep -E '^test result|error(\\[|:)' | head -20", cwd=copy)
+        rc2, o2 = sh("cargo test --offline --no-fail-fast 2>&1 | grep -E '^test result|^error' | head -20", cwd=copy)
         res = re.findall(r"test result: (\w+)\.", o2)
-        meta["suite_green"] = bool(res) and all(r == "ok" for r in res) and "error" not in o2
+        meta["suite_green"] = len(res) >= 5 and all(r == "ok" for r in res) and not re.search(r"^error", o2, re.M)
         sh("rm -rf %s/target" % copy)
         if meta["applies"] and meta["suite_green"]:
             for c in checks:
